@@ -1,5 +1,6 @@
 import Poly.Generated.Thresholds
 import Poly.Util.Proto
+import Poly.Model.Quorum
 /- Sweep driver: evaluates every generated threshold definition on the same (a, b) grid as the Go program
    that holds the source expressions verbatim (validates the translator's rendering of Go arithmetic), and the
    `quorum` family: the behaviour the generated definitions predict for the real ledgers (first approval count
@@ -7,11 +8,7 @@ import Poly.Util.Proto
 open Poly.Generated.Thresholds
 open Poly
 
-/-- Least k in 1..n with `p k`, else -1 (the ledgers count the approver before testing the threshold). -/
-def firstFire (p : Int → Bool) (n : Nat) : Int :=
-  match (List.range n).find? (fun (i : Nat) => p ((i : Int) + 1)) with
-  | some i => (i : Int) + 1
-  | none => -1
+open Poly.Model.Quorum
 
 def quorumStep (_ : Unit) (toks : List String) : Unit × String :=
   match toks with
